@@ -370,10 +370,25 @@ func TestVerif_C13_TwoWriters(t *testing.T) {
 				rt.Fatalf("C13: replica %d lists the same %d entries in another order", i, n)
 			}
 		}
-		// reverse is exactly the reverse
-		rl, err := c13MetaLister(gcs[2])(nil, []byte(nil), true)
-		_ = rl
-		_ = err
+		// every (since, until, reverse) over the merged log: the contiguous inclusive range of the full listing's
+		// order, also when the bounds are entries of concurrent branches
+		var order []cid.Cid
+		for _, s := range lists[0] {
+			c, err := cid.Decode(s)
+			if err != nil {
+				rt.Fatalf("harness: %v", err)
+			}
+			order = append(order, c)
+		}
+		for i, gc := range []*GroupContext{gcs[0], gcs[2]} {
+			if id, msg := c13CheckCube(c13MetaLister(gc), order, fmt.Sprintf("metadata of two writers (replica %d)", i*2), func(bool, string) {}); id != "" {
+				if id == "harness" {
+					rt.Fatalf("harness: %s", msg)
+				}
+				acct.Violation(id+"/two-writers", "TestVerif_C13_TwoWriters", map[string]any{"msg": msg, "entries": n, "concurrent_pair": concurrent})
+				rt.Fatalf("C13 %s/two-writers: %s", id, msg)
+			}
+		}
 		acct.Case(concurrent, fmt.Sprintf("tw|%v", lists[0]), func() any { return map[string]any{"kind": "two-writers", "entries": n, "concurrent_pair": concurrent} }, "two-writers", lbl07(concurrent, "two-writers/concurrent-pair"))
 	})
 }
